@@ -4,15 +4,16 @@ C10, package L — lock discipline (race freedom) of `cache/data.go` from a rege
 The translator `/verif/gen/cachelock.go` re-emits, on every run of `./check`, every method of
 `*cache` as a term of the small statement language `Stmt` below (`Gen/CacheLockIR.lean`):
 the memory accesses to the fields of the shared `cache` object in Go evaluation order, the
-`Lock`/`Unlock` calls on `c.lock`, the `OnDelete` callback, `return`s, and the control
-structure (`if` / `for`).  This file defines
+`Lock`/`Unlock` calls on `c.lock`, the `OnDelete` callback, `return`s, the control
+structure (`if` / `for`) and the calls of helper methods/functions of the package (as `call`
+nodes carrying the translated body of the callee: inlining).  This file defines
 
 * the path semantics of the language (`Exec`: every control path, data-independent),
 * the checker `analyse` (an abstract interpretation over `{held, published}`),
 * the per-path property `WellLocked`, the thread system (`ThreadOf`, `MutexOK`) and the
   combined machine `grun` used by the race-freedom theorems (`Theorems/C10Lock.lean`),
-* the projection `sectionsOf` (critical-section decomposition) compared with a hand-written
-  expectation.
+* the critical-section profile `sectionsOf` (a semantic normal form of the paths, computed by
+  a second abstract interpretation `flowB`) compared with a hand-written expectation.
 
 Core Lean only.
 -/
@@ -38,7 +39,7 @@ inductive Acc where
 /-- Statements.  `publish` = the local item becomes reachable from the shared object
 (`listAppend(&it.used, …)` or `c.items[…] = &it`).  Conditions are statement lists (the
 accesses of evaluating the condition; `a && b` is `a`'s accesses followed by
-`ite [] b's accesses []`). -/
+`ite [] b's accesses []`; a helper called in a condition is a `call` there). -/
 inductive Stmt where
   | lock | unlock
   | acc (a : Acc) (l : Loc)
@@ -47,6 +48,11 @@ inductive Stmt where
   | ret
   | ite (cond thn els : List Stmt)
   | loop (cond body : List Stmt)
+  /-- an inlined call of a helper (`c.isFull(…)`, `it.size()`, `itemOf(…)`): executes the
+  translated body of the callee; a `ret` inside `body` ends the CALL (control continues after
+  it in the caller), not the enclosing method; the lock state and the publication state flow
+  through.  `name` is only used in diagnostics. -/
+  | call (name : String) (body : List Stmt)
   deriving Repr
 
 structure Method where
@@ -69,7 +75,9 @@ inductive Ev where
 `o = true` iff the path ended in a `return` (then the rest of `b` is not executed), `false`
 iff it fell off the end of `b`.  Branches are taken non-deterministically (paths
 over-approximate data-dependent control flow); the condition's accesses happen before the
-branch; a loop runs any number of iterations. -/
+branch; a loop runs any number of iterations.  A `call` runs one path of the callee's body —
+whether that path ends in a `return` of the callee or falls off its end — and then the caller
+continues.  `return` itself emits no event here; `Path` appends the `ret` event of the method. -/
 inductive Exec : List Stmt → List Ev → Bool → Prop where
   | nil : Exec [] [] false
   | lock {r p o} : Exec r p o → Exec (.lock :: r) (.lock :: p) o
@@ -77,15 +85,18 @@ inductive Exec : List Stmt → List Ev → Bool → Prop where
   | acc {a l r p o} : Exec r p o → Exec (.acc a l :: r) (.acc a l :: p) o
   | publish {r p o} : Exec r p o → Exec (.publish :: r) (.publish :: p) o
   | callOnDelete {r p o} : Exec r p o → Exec (.callOnDelete :: r) (.callOnDelete :: p) o
-  | ret {r} : Exec (.ret :: r) [.ret] true
+  | ret {r} : Exec (.ret :: r) [] true
   | iteThen {c t e r p o} : Exec (c ++ (t ++ r)) p o → Exec (.ite c t e :: r) p o
   | iteElse {c t e r p o} : Exec (c ++ (e ++ r)) p o → Exec (.ite c t e :: r) p o
   | loopExit {c b r p o} : Exec (c ++ r) p o → Exec (.loop c b :: r) p o
   | loopIter {c b r p o} : Exec (c ++ (b ++ .loop c b :: r)) p o → Exec (.loop c b :: r) p o
+  | call {n b r p q o' o} : Exec b p o' → Exec r q o → Exec (.call n b :: r) (p ++ q) o
 
-/-- `p` is a complete control path of the method body `b` (ended by `return` or by the end
-of the body). -/
-def Path (b : List Stmt) (p : List Ev) : Prop := ∃ o, Exec b p o
+/-- `p` is a complete control path of the method body `b`: it fell off the end of the body, or
+it ended in a `return` of the method (the last event is then `ret`; the `return`s of inlined
+helpers are not events). -/
+def Path (b : List Stmt) (p : List Ev) : Prop :=
+  Exec b p false ∨ ∃ p', Exec b p' true ∧ p = p' ++ [.ret]
 
 /-! ## The discipline, as a walk over events -/
 
@@ -141,29 +152,34 @@ def WellLocked (p : List Ev) : Prop := ∃ s', walk init p = some s' ∧ s'.held
 
 /-! ## The checker
 
-Abstract interpretation in continuation-passing style: `anaB b k s` = "every path through `b`
-from state `s` is permitted, every `return` happens without the lock, and every state in
-which control falls off the end of `b` satisfies `k`".  Both branches of an `ite` are
-analysed with the same continuation (so they may end in different states as long as the
-rest of the method is fine from both); a `loop` body must bring the state back to the state
-at loop entry on every path that reaches its end (loop invariant). -/
+Abstract interpretation in continuation-passing style: `anaB b kr k s` = "every path through
+`b` from state `s` is permitted, every state in which a `return` is executed satisfies `kr`, and
+every state in which control falls off the end of `b` satisfies `k`".  At method level `kr` is
+"the lock is not held"; inside an inlined `call` both continuations are the rest of the caller
+(the set of possible exit states of the callee — falling off its end or any `return` inside —
+all continue after the call).  Both branches of an `ite` are analysed with the same
+continuation (so they may end in different states as long as the rest of the method is fine
+from both); a `loop` body must bring the state back to the state at loop entry on every path
+that reaches its end (loop invariant). -/
 mutual
-def anaS : Stmt → (St → Bool) → St → Bool
-  | .lock, k, s => match s.step .lock with | some s' => k s' | none => false
-  | .unlock, k, s => match s.step .unlock with | some s' => k s' | none => false
-  | .acc a l, k, s => match s.step (.acc a l) with | some s' => k s' | none => false
-  | .publish, k, s => match s.step .publish with | some s' => k s' | none => false
-  | .callOnDelete, k, s => match s.step .callOnDelete with | some s' => k s' | none => false
-  | .ret, _, s => match s.step .ret with | some _ => true | none => false
-  | .ite c t e, k, s => anaB c (fun s1 => anaB t k s1 && anaB e k s1) s
-  | .loop c b, k, s => anaB c (fun s1 => anaB b (fun s2 => s2 == s) s1 && k s1) s
-def anaB : List Stmt → (St → Bool) → St → Bool
-  | [], k, s => k s
-  | x :: r, k, s => anaS x (fun s' => anaB r k s') s
+def anaS : Stmt → (St → Bool) → (St → Bool) → St → Bool
+  | .lock, _, k, s => match s.step .lock with | some s' => k s' | none => false
+  | .unlock, _, k, s => match s.step .unlock with | some s' => k s' | none => false
+  | .acc a l, _, k, s => match s.step (.acc a l) with | some s' => k s' | none => false
+  | .publish, _, k, s => match s.step .publish with | some s' => k s' | none => false
+  | .callOnDelete, _, k, s => match s.step .callOnDelete with | some s' => k s' | none => false
+  | .ret, kr, _, s => kr s
+  | .ite c t e, kr, k, s => anaB c kr (fun s1 => anaB t kr k s1 && anaB e kr k s1) s
+  | .loop c b, kr, k, s => anaB c kr (fun s1 => anaB b kr (fun s2 => s2 == s) s1 && k s1) s
+  | .call _ b, _, k, s => anaB b k k s
+def anaB : List Stmt → (St → Bool) → (St → Bool) → St → Bool
+  | [], _, k, s => k s
+  | x :: r, kr, k, s => anaS x kr (fun s' => anaB r kr k s') s
 end
 
-/-- The lock-discipline check of one method. -/
-def analyse (m : Method) : Bool := anaB m.body (fun s => !s.held) init
+/-- The lock-discipline check of one method: every path is permitted and the method is left —
+by `return` or at the end of its body — without the lock. -/
+def analyse (m : Method) : Bool := anaB m.body (fun s => !s.held) (fun s => !s.held) init
 
 /-! ### Diagnostics (not used by any theorem)
 
@@ -185,31 +201,49 @@ def Ev.show : Ev → String
 def St.show (s : St) : String :=
   (if s.held then "lock held" else "lock NOT held") ++ (if s.published then ", item published" else "")
 
-def vioStep (e : Ev) (k : St → List String) (s : St) : List String :=
+mutual
+/-- where `Lock`/`Unlock` are written: "the method body" and/or the helpers (diagnostics) -/
+def lockSitesS : Stmt → String → List String
+  | .lock, w => [w] | .unlock, w => [w]
+  | .acc _ _, _ => [] | .publish, _ => [] | .callOnDelete, _ => [] | .ret, _ => []
+  | .ite c t e, w => lockSitesB c w ++ lockSitesB t w ++ lockSitesB e w
+  | .loop c b, w => lockSitesB c w ++ lockSitesB b w
+  | .call n b, _ => lockSitesB b ("helper " ++ n)
+def lockSitesB : List Stmt → String → List String
+  | [], _ => []
+  | x :: r, w => lockSitesS x w ++ lockSitesB r w
+end
+
+def vioStep (ctx : String) (e : Ev) (k : St → List String) (s : St) : List String :=
   match s.step e, e with
   | some s', _ => k s'
-  | none, .acc _ _ => (e.show ++ " with " ++ s.show) :: k s   -- go on, to report every bad access
-  | none, _ => [e.show ++ " with " ++ s.show]
+  | none, .acc _ _ => (ctx ++ e.show ++ " with " ++ s.show) :: k s   -- go on, to report every bad access
+  | none, _ => [ctx ++ e.show ++ " with " ++ s.show]
 
 mutual
-def vioS : Stmt → (St → List String) → St → List String
-  | .lock, k, s => vioStep .lock k s
-  | .unlock, k, s => vioStep .unlock k s
-  | .acc a l, k, s => vioStep (.acc a l) k s
-  | .publish, k, s => vioStep .publish k s
-  | .callOnDelete, k, s => vioStep .callOnDelete k s
-  | .ret, _, s => vioStep .ret (fun _ => []) s
-  | .ite c t e, k, s => vioB c (fun s1 => vioB t k s1 ++ vioB e k s1) s
-  | .loop c b, k, s =>
-    vioB c (fun s1 => vioB b (fun s2 => if s2 == s then [] else
-      ["loop body ends with " ++ s2.show ++ " but started with " ++ s.show]) s1 ++ k s1) s
-def vioB : List Stmt → (St → List String) → St → List String
-  | [], k, s => k s
-  | x :: r, k, s => vioS x (fun s' => vioB r k s') s
+/-- `ctx` = the chain of inlined helpers the statement is in (`"makeRoom → notifyDeleted: "`) -/
+def vioS : Stmt → String → (St → List String) → (St → List String) → St → List String
+  | .lock, ctx, _, k, s => vioStep ctx .lock k s
+  | .unlock, ctx, _, k, s => vioStep ctx .unlock k s
+  | .acc a l, ctx, _, k, s => vioStep ctx (.acc a l) k s
+  | .publish, ctx, _, k, s => vioStep ctx .publish k s
+  | .callOnDelete, ctx, _, k, s => vioStep ctx .callOnDelete k s
+  | .ret, _, kr, _, s => kr s
+  | .ite c t e, ctx, kr, k, s => vioB c ctx kr (fun s1 => vioB t ctx kr k s1 ++ vioB e ctx kr k s1) s
+  | .loop c b, ctx, kr, k, s =>
+    vioB c ctx kr (fun s1 => vioB b ctx kr (fun s2 => if s2 == s then [] else
+      [ctx ++ "loop body ends with " ++ s2.show ++ " but started with " ++ s.show ++
+        " (Lock/Unlock in the loop are in: " ++ ", ".intercalate (lockSitesB (c ++ b) "the loop itself").eraseDups ++ ")"]) s1 ++ k s1) s
+  | .call n b, ctx, _, k, s => vioB b (ctx ++ "in helper " ++ n ++ ": ") k k s
+def vioB : List Stmt → String → (St → List String) → (St → List String) → St → List String
+  | [], _, _, k, s => k s
+  | x :: r, ctx, kr, k, s => vioS x ctx kr (fun s' => vioB r ctx kr k s') s
 end
 
 def violations (m : Method) : List String :=
-  (vioB m.body (fun s => if s.held then ["end of method with lock held"] else []) init).eraseDups
+  let sites := " (Lock/Unlock are in: " ++ ", ".intercalate (lockSitesB m.body "the method body").eraseDups ++ ")"
+  (vioB m.body "" (fun s => if s.held then ["return with lock held" ++ sites] else [])
+    (fun s => if s.held then ["end of method with lock held" ++ sites] else []) init).eraseDups
 
 def report (ms : List Method) : List String :=
   ms.flatMap fun m => (violations m).map fun v => "lock discipline violated in cache." ++ m.name ++ ": " ++ v
@@ -285,35 +319,173 @@ def grun (o : Option Tid) : Trace → Option (Option Tid)
 least one of them is not a plain read. -/
 def RaceCandidate (a1 a2 : Acc) : Prop := ¬(a1 = .atomic ∧ a2 = .atomic) ∧ (a1 ≠ .read ∨ a2 ≠ .read)
 
-/-! ## Critical-section decomposition (`sections`)
+/-! ## Critical-section profile (`sections`)
 
-A flat, normalised view of a method: where the lock is taken and released, what is accessed
-in between (as a sorted set), where the callback is called.  Control structure that contains
-no `lock`/`unlock`/`callOnDelete` is flattened into the surrounding access set ("may
-access"); the `sync/atomic` accesses are collected per method without position; a trailing
-`ret` of the method is dropped.  So the view is insensitive to statement order inside a
-section, to restructuring of lock-free control flow, and to the position of the atomics. -/
+A SEMANTIC normal form of a method, defined on its control paths and computed by a second
+abstract interpretation (`flowB`).  Every path is cut into regions: `pre` (before the first
+`Lock`), `held` (between a `Lock` and the next `Unlock`: a critical section) and `free` (after
+an `Unlock`).  The profile records
+
+* per region kind, the MAY-access set: which of the lock-protected locations (`items`, `usage`,
+  `size`) are read / written there on some path (a write subsumes the read of the same
+  location), where the item is published, where `OnDelete` is called.  Accesses to `conf`, to
+  published items and to the goroutine's own fresh item are NOT part of the profile: they are
+  permitted anywhere (`accOK`), so moving them across an `Unlock` is a harmless rewrite;
+* the `sync/atomic` accesses of the method, wherever they are;
+* how many critical sections a single path can enter: `0`, `1`, or `2` = two or more
+  (`Fact.sections n`: some path takes the lock for the `n`-th time, saturating at 2);
+* `relockBare`: some path takes the lock again after an `Unlock` WITHOUT an `OnDelete` call in
+  between (the lock is given up in the middle of a call only to run the callback).
+
+Being a property of the set of paths, the profile is insensitive to everything that keeps that
+set's regions: statement order inside a region, `defer` vs explicit `Unlock`, extraction of
+helpers (calls are flattened by `Exec`), early-return forms, `if c {unlock; return}` in front of
+a loop vs. inside it, `if`/`else` restructuring, reading an immutable field before or after the
+`Unlock`.  It changes when a protected access moves from one kind of region to another or changes
+its mode, when a method gets a second critical section, when the callback or the publication
+moves, when a method touches another counter. -/
 
 inductive Item where
   | acc (a : Acc) (l : Loc)
   | publish
-  deriving DecidableEq, Repr
-
-inductive Tok where
-  | lock | unlock
-  | accs (is : List Item)
   | callOnDelete
-  | ret
-  | ifBegin | elseBegin | endIf
-  | loopBegin | loopDo | loopEnd
   deriving DecidableEq, Repr
 
-structure MethodSections where
-  name : String
-  /-- the `sync/atomic` accesses of the method, wherever they are -/
-  atomics : List Item
-  toks : List Tok
+/-- region kinds -/
+inductive RegKind where
+  | pre | held | free
   deriving DecidableEq, Repr
+
+/-- where a path is: `free cb` = after an `Unlock`, `cb` = `OnDelete` was called since. -/
+inductive Reg where
+  | pre | held
+  | free (cb : Bool)
+  deriving DecidableEq, Repr
+
+def Reg.kind : Reg → RegKind
+  | .pre => .pre | .held => .held | .free _ => .free
+
+/-- number of critical sections entered so far: none, one, two or more -/
+inductive NSec where
+  | zero | one | many
+  deriving DecidableEq, Repr
+
+def NSec.succ : NSec → NSec
+  | .zero => .one
+  | _ => .many
+
+def NSec.toNat : NSec → Nat
+  | .zero => 0 | .one => 1 | .many => 2
+
+/-- profile state of a path prefix: region and number of sections entered (12 states) -/
+structure PSt where
+  reg : Reg
+  nsec : NSec
+  deriving DecidableEq, Repr
+
+def pinit : PSt := ⟨.pre, .zero⟩
+
+inductive Fact where
+  | item (r : RegKind) (i : Item)
+  | atomic (i : Item)
+  | sections (n : Nat)
+  | relockBare
+  deriving DecidableEq, Repr
+
+def PSt.step (s : PSt) : Ev → PSt
+  | .lock => ⟨.held, s.nsec.succ⟩
+  | .unlock => ⟨.free false, s.nsec⟩
+  | .callOnDelete => match s.reg with
+    | .free _ => ⟨.free true, s.nsec⟩
+    | _ => s
+  | _ => s
+
+/-- what one event contributes to the profile -/
+def PSt.facts (s : PSt) : Ev → List Fact
+  | .lock => (if s.reg = .free false then [.relockBare] else []) ++ [.sections s.nsec.succ.toNat]
+  | .acc a l =>
+    if a = .atomic then [.atomic (.acc .atomic l)]
+    else if l.protected then [.item s.reg.kind (.acc a l)] else []
+  | .publish => [.item s.reg.kind .publish]
+  | .callOnDelete => [.item s.reg.kind .callOnDelete]
+  | .unlock => []
+  | .ret => []
+
+/-- the facts of one path (semantic definition; `profile_sound` relates it to `flowB`) -/
+def pathFacts (s : PSt) : List Ev → List Fact
+  | [] => []
+  | e :: p => s.facts e ++ pathFacts (s.step e) p
+
+def pwalk (s : PSt) : List Ev → PSt
+  | [] => s
+  | e :: p => pwalk (s.step e) p
+
+/-- remove duplicates -/
+def dedup {α} [DecidableEq α] : List α → List α
+  | [] => []
+  | x :: r => if x ∈ dedup r then dedup r else x :: dedup r
+
+/-- result of the forward analysis of a statement list from one state: the states in which
+control falls off its end, the states in which a `return` is executed, the facts collected -/
+structure Res where
+  falls : List PSt
+  rets : List PSt
+  facts : List Fact
+  deriving Repr
+
+def Res.prim (s : PSt) (e : Ev) : Res := ⟨[s.step e], [], s.facts e⟩
+
+/-- `a ++ b` without duplicates -/
+def union {α} [DecidableEq α] (a b : List α) : List α := dedup (a ++ b)
+
+/-- componentwise union (every component of both arguments is used exactly once, so that
+evaluation never repeats a sub-analysis) -/
+def Res.join : Res → Res → Res
+  | ⟨f1, r1, a1⟩, ⟨f2, r2, a2⟩ => ⟨union f1 f2, union r1 r2, union a1 a2⟩
+
+/-- run `g` from every state in `S` -/
+def Res.from (S : List PSt) (g : PSt → Res) : Res :=
+  S.foldr (fun s acc => (g s).join acc) ⟨[], [], []⟩
+
+/-- sequencing: `g` runs from every fall-through state of `r` -/
+def Res.bind (r : Res) (g : PSt → Res) : Res :=
+  match r with
+  | ⟨f, rt, fa⟩ =>
+    match Res.from f g with
+    | ⟨f2, r2, a2⟩ => ⟨f2, union rt r2, union fa a2⟩
+
+/-- least set of states containing `S` and closed under `f`: iterate until nothing new appears.
+There are 12 states, so fuel 13 always suffices (`lfp_closed`, Lemmas/C10Profile.lean). -/
+def lfp (f : PSt → List PSt) : Nat → List PSt → List PSt
+  | 0, S => S
+  | n + 1, S =>
+    if (S.flatMap f).all (fun x => decide (x ∈ S)) then S else lfp f n (union S (S.flatMap f))
+
+/-- a loop, given the analysis of "condition, then body" (`iter`) and of the condition alone
+(`exit`) from every state of the invariant -/
+def Res.loop : Res → Res → Res
+  | ⟨_, r1, a1⟩, ⟨f2, r2, a2⟩ => ⟨f2, union r1 r2, union a1 a2⟩
+
+mutual
+def flowS : Stmt → PSt → Res
+  | .lock, s => .prim s .lock
+  | .unlock, s => .prim s .unlock
+  | .acc a l, s => .prim s (.acc a l)
+  | .publish, s => .prim s .publish
+  | .callOnDelete, s => .prim s .callOnDelete
+  | .ret, s => ⟨[], [s], []⟩
+  | .ite c t e, s => (flowB c s).bind fun s1 => (flowB t s1).join (flowB e s1)
+  | .loop c b, s =>
+    -- invariant: the states at the loop head; closed under "condition, then body"
+    let inv := lfp (fun s0 => ((flowB c s0).bind (flowB b)).falls) 13 [s]
+    Res.loop (Res.from inv fun s0 => (flowB c s0).bind (flowB b)) (Res.from inv (flowB c))
+  | .call _ b, s =>
+    match flowB b s with
+    | ⟨f, r, fa⟩ => ⟨union f r, [], fa⟩
+def flowB : List Stmt → PSt → Res
+  | [], s => ⟨[s], [], []⟩
+  | x :: r, s => (flowS x s).bind (flowB r)
+end
 
 def Loc.code : Loc → Nat
   | .items => 0 | .usage => 1 | .size => 2 | .hit => 3 | .miss => 4 | .conf => 5
@@ -325,139 +497,121 @@ def Acc.code : Acc → Nat
 def Item.code : Item → Nat
   | .acc a l => 3 * l.code + a.code
   | .publish => 100
+  | .callOnDelete => 101
 
 def insertItem (x : Item) : List Item → List Item
   | [] => [x]
   | y :: r => if x.code < y.code then x :: y :: r else if x.code = y.code then y :: r else y :: insertItem x r
 
-/-- sort by code, drop duplicates -/
-def normItems (l : List Item) : List Item := l.foldr insertItem []
-
-mutual
-/-- does the statement contain `lock`/`unlock`/`callOnDelete`? -/
-def syncS : Stmt → Bool
-  | .lock | .unlock | .callOnDelete => true
-  | .acc _ _ | .publish | .ret => false
-  | .ite c t e => syncB c || syncB t || syncB e
-  | .loop c b => syncB c || syncB b
-def syncB : List Stmt → Bool
-  | [] => false
-  | x :: r => syncS x || syncB r
-end
-
-mutual
-/-- all accesses (and `publish`) inside a statement -/
-def itemsS : Stmt → List Item
-  | .acc a l => [.acc a l]
-  | .publish => [.publish]
-  | .lock | .unlock | .callOnDelete | .ret => []
-  | .ite c t e => itemsB c ++ itemsB t ++ itemsB e
-  | .loop c b => itemsB c ++ itemsB b
-def itemsB : List Stmt → List Item
-  | [] => []
-  | x :: r => itemsS x ++ itemsB r
-end
-
-def Item.isAtomic : Item → Bool
-  | .acc .atomic _ => true
+/-- a read is subsumed by a write of the same location in the same set -/
+def Item.subsumedIn (l : List Item) : Item → Bool
+  | .acc .read loc => l.contains (.acc .write loc)
   | _ => false
 
-/-- one access run (atomics are reported separately) -/
-def accsTok (is : List Item) : List Tok :=
-  match is.filter (fun i => !i.isAtomic) with
-  | [] => []
-  | l => [.accs l]
+/-- sort by code, drop duplicates, drop reads subsumed by writes -/
+def normItems (l : List Item) : List Item :=
+  let s := l.foldr insertItem []
+  s.filter fun i => !i.subsumedIn s
 
-mutual
-def toksS : Stmt → List Tok
-  | .lock => [.lock]
-  | .unlock => [.unlock]
-  | .callOnDelete => [.callOnDelete]
-  | .ret => [.ret]
-  | .acc a l => accsTok [.acc a l]
-  | .publish => accsTok [.publish]
-  | .ite c t e =>
-    if syncB c || syncB t || syncB e then
-      toksB c ++ [.ifBegin] ++ toksB t ++ [.elseBegin] ++ toksB e ++ [.endIf]
-    else accsTok (itemsB c ++ itemsB t ++ itemsB e)
-  | .loop c b =>
-    if syncB c || syncB b then
-      [.loopBegin] ++ toksB c ++ [.loopDo] ++ toksB b ++ [.loopEnd]
-    else accsTok (itemsB c ++ itemsB b)
-def toksB : List Stmt → List Tok
-  | [] => []
-  | .ret :: _ => [.ret]   -- what follows a `return` in the same block is dead
-  | x :: r => toksS x ++ toksB r
-end
+structure Profile where
+  name : String
+  /-- the `sync/atomic` accesses of the method, wherever they are -/
+  atomics : List Item
+  /-- may-access set before the first `Lock` -/
+  pre : List Item
+  /-- may-access set of the critical sections -/
+  held : List Item
+  /-- may-access set after an `Unlock`, outside the critical sections -/
+  free : List Item
+  /-- critical sections one path can enter: 0, 1, 2 (= two or more) -/
+  sections : Nat
+  relockBare : Bool
+  deriving DecidableEq, Repr
 
-/-- merge adjacent access runs and normalise them -/
-def mergeToks : List Tok → List Tok
-  | [] => []
-  | .accs a :: r =>
-    match mergeToks r with
-    | .accs b :: r' => .accs (normItems (a ++ b)) :: r'
-    | r' => .accs (normItems a) :: r'
-  | t :: r => t :: mergeToks r
+def factsOf (m : Method) : List Fact :=
+  let r := flowB m.body pinit
+  r.facts
 
-def dropTrailingRet (l : List Tok) : List Tok :=
-  match l.reverse with
-  | .ret :: r => r.reverse
-  | _ => l
+def profileOfFacts (name : String) (fs : List Fact) : Profile :=
+  { name := name
+    atomics := normItems (fs.filterMap fun | .atomic i => some i | _ => none)
+    pre := normItems (fs.filterMap fun | .item .pre i => some i | _ => none)
+    held := normItems (fs.filterMap fun | .item .held i => some i | _ => none)
+    free := normItems (fs.filterMap fun | .item .free i => some i | _ => none)
+    sections := fs.foldl (fun n f => match f with | .sections k => max n k | _ => n) 0
+    relockBare := fs.contains .relockBare }
 
-def sectionsOf (m : Method) : MethodSections :=
-  { name := m.name
-    atomics := normItems ((itemsB m.body).filter Item.isAtomic)
-    toks := dropTrailingRet (mergeToks (toksB m.body)) }
+def sectionsOf (m : Method) : Profile := profileOfFacts m.name (factsOf m)
 
-/-! ## The expected decomposition (written by hand)
+/-! ### Diagnostics (not used by any theorem): what differs from the expectation -/
+
+def Item.show : Item → String
+  | .acc .read l => "read " ++ l.show
+  | .acc .write l => "write " ++ l.show
+  | .acc .atomic l => "atomic " ++ l.show
+  | .publish => "publish"
+  | .callOnDelete => "OnDelete call"
+
+def showItems (l : List Item) : String := "{" ++ ", ".intercalate (l.map Item.show) ++ "}"
+
+def diffField (what : String) (got want : List Item) : List String :=
+  if got = want then [] else [what ++ ": source has " ++ showItems got ++ ", documented " ++ showItems want]
+
+def Profile.diff (got want : Profile) : List String :=
+  (diffField "atomic accesses" got.atomics want.atomics ++
+   diffField "accesses before the first Lock" got.pre want.pre ++
+   diffField "accesses inside critical sections" got.held want.held ++
+   diffField "accesses after an Unlock (outside sections)" got.free want.free ++
+   (if got.sections = want.sections then [] else
+     ["critical sections on one path: source " ++ toString got.sections ++ ", documented " ++ toString want.sections ++ " (2 = two or more)"]) ++
+   (if got.relockBare = want.relockBare then [] else
+     ["re-Lock after an Unlock without an OnDelete call in between: source " ++ toString got.relockBare ++ ", documented " ++ toString want.relockBare])).map
+    fun d => "critical-section profile of cache." ++ got.name ++ " differs: " ++ d
+
+def profileReport (got want : List Profile) : List String :=
+  (if got.map (·.name) = want.map (·.name) then [] else
+    ["exported methods of cache: source has " ++ toString (got.map (·.name)) ++ ", documented " ++ toString (want.map (·.name))]) ++
+  (got.zip want).flatMap fun (g, w) => if g.name = w.name then g.diff w else []
+
+/-! ## The expected profile (written by hand)
 
 This is the critical-section structure `Model/C09.lean` / `Model/C09Frames.lean` were written
-against: `Set` = a check section that may refuse and return, then a loop of {evict section;
-unlock; `OnDelete`; lock}, then the commit section; `Get`, `Del`, `Clear`, `Stats` = one
-section each (`Get` reads the found item's value after the section; `Clear`, `Get`, `Stats`
-touch the hit/miss counters atomically).  `Theorems/C10Lock.lean`, `sections_expected`,
-compares it with the projection of the regenerated IR. -/
+against: `Get`, `Del`, `Clear`, `Stats` are ONE critical section each (`Get` reads the found
+item's value after its section; `Clear`, `Get`, `Stats` touch the hit/miss counters atomically);
+`Set` runs two or more sections — check / evict / commit — giving up the lock in between only
+around an `OnDelete` call, and publishes its item inside a section.  `Theorems/C10Lock.lean`,
+`sections_expected`, compares it with the profile of the regenerated IR. -/
 namespace Expected
 
 private def r (l : Loc) : Item := .acc .read l
 private def w (l : Loc) : Item := .acc .write l
 private def counters : List Item := [.acc .atomic .hit, .acc .atomic .miss]
 
-def clear : MethodSections :=
-  { name := "Clear", atomics := counters
-    toks := [.lock, .accs [w .items, w .usage, w .size], .unlock] }
+def clear : Profile :=
+  { name := "Clear", atomics := counters, pre := [], held := [w .items, w .usage, w .size], free := [],
+    sections := 1, relockBare := false }
 
-def set : MethodSections :=
-  { name := "Set", atomics := []
-    toks := [
-      -- size check against MaxElementSize, filling of the local item
-      .accs [r .conf, w (.itemKV true)],
-      -- check section: refuse when full and LRU is off
-      .lock, .accs [r .items, r .size, r .conf],
-      .ifBegin, .unlock, .ret, .elseBegin, .endIf,
-      -- eviction loop: one evict section per iteration, the callback runs outside the lock
-      .loopBegin, .accs [r .items, r .size, r .conf], .loopDo,
-        .accs [w .items, r .usage, w .usage, r .size, w .size, r .conf, r (.itemKV false)],
-        .ifBegin, .unlock, .accs [r .conf, r (.itemKV false)], .callOnDelete, .lock, .elseBegin, .endIf,
-      .loopEnd,
-      -- commit section: link the new item, replace the old one, publish
-      .accs [r .items, w .items, r .usage, w .usage, r .size, w .size, r .conf, r (.itemKV false), .publish],
-      .unlock] }
+def set : Profile :=
+  { name := "Set", atomics := [], pre := []
+    -- check / evict / commit sections
+    held := [w .items, w .usage, w .size, .publish]
+    -- the callback runs outside the lock, between two sections
+    free := [.callOnDelete]
+    sections := 2, relockBare := false }
 
-def get : MethodSections :=
-  { name := "Get", atomics := counters
-    toks := [.lock, .accs [r .items, r .usage, w .usage, r .conf], .unlock, .accs [r (.itemKV false)]] }
+def get : Profile :=
+  { name := "Get", atomics := counters, pre := [], held := [r .items, w .usage], free := [],
+    sections := 1, relockBare := false }
 
-def del : MethodSections :=
-  { name := "Del", atomics := []
-    toks := [.lock, .accs [r .items], .ifBegin, .unlock, .ret, .elseBegin, .endIf,
-      .accs [w .items, w .usage, r .size, w .size, r .conf, r (.itemKV false)], .unlock] }
+def del : Profile :=
+  { name := "Del", atomics := [], pre := [], held := [w .items, w .usage, w .size], free := [],
+    sections := 1, relockBare := false }
 
-def stats : MethodSections :=
-  { name := "Stats", atomics := counters
-    toks := [.lock, .accs [r .items, r .size], .unlock] }
+def stats : Profile :=
+  { name := "Stats", atomics := counters, pre := [], held := [r .items, r .size], free := [],
+    sections := 1, relockBare := false }
 
-def sections : List MethodSections := [clear, set, get, del, stats]
+def sections : List Profile := [clear, set, get, del, stats]
 
 end Expected
 
